@@ -610,6 +610,9 @@ func setupTools() {
 		all = append(all, b...)
 	}
 	os.WriteFile(poolPEM, all, 0o600)
+	for k := range relicx.BundleKeys {
+		defer func(k string) { leafPubPEM[k] = leafPubPEM["rsaA"] }(k)
+	}
 	for _, k := range relicx.X509Keys {
 		p := filepath.Join(tmp, k+".pub.pem")
 		if _, err := openssl("x509", "-in", filepath.Join(relicx.KeyDir, k+".leaf.crt"), "-pubkey", "-noout", "-out", p); err != nil {
@@ -893,11 +896,24 @@ func checkCMS(c sigCase, what string, der []byte, o cmsOpts) *dergen.CMS {
 				args = append(args, "-content", filepath.Join(d, "content"))
 			}
 			_, err := openssl(args...)
-			os.RemoveAll(d)
 			oracle(f, "openssl cms -verify", err == nil)
 			if err != nil {
 				violation(f+":openssl-cms-rejects:"+what+":"+keyType(c.Key), fmt.Sprintf("%s: %s: %v", c, what, err), c.replay(map[string]any{"cms_hex": hex.EncodeToString(der)}))
+			} else {
+				// the relying party's view: only the root is known in advance, the
+				// path to it is built from the certificates the signature carries
+				// (the configured certificate file holds a complete path)
+				args2 := []string{"cms", "-verify", "-binary", "-purpose", "any", "-no_check_time", "-CAfile", filepath.Join(relicx.KeyDir, "root.crt"), "-inform", "DER", "-in", filepath.Join(d, "p7"), "-out", os.DevNull}
+				if !l.HasEContent {
+					args2 = append(args2, "-content", filepath.Join(d, "content"))
+				}
+				_, err := openssl(args2...)
+				oracle(f, "openssl cms -verify with chain validation from the embedded certificates to the root", err == nil)
+				if err != nil {
+					violation(f+":openssl-cms-chain-rejects:"+what+":"+keyType(c.Key), fmt.Sprintf("%s: %s: %v", c, what, err), c.replay(map[string]any{"cms_hex": hex.EncodeToString(der)}))
+				}
 			}
+			os.RemoveAll(d)
 		}
 	}
 	// (3) RFC 3161 token
